@@ -5,6 +5,13 @@ Fixpoint list_eqb {A} (eqb : A -> A -> bool) (a b : list A) : bool :=
   match a, b with [], [] => true | x :: a', y :: b' => eqb x y && list_eqb eqb a' b' | _, _ => false end.
 Definition wrap_eqb (a b : wrap) : bool :=
   match a, b with WQuote, WQuote | WFunction, WFunction | WBackquote, WBackquote | WComma, WComma | WCommaAt, WCommaAt => true | _, _ => false end.
+(* the lexeme of a float or a ratio: begins with a digit, a sign or a point and holds a digit *)
+Definition num_like (bs : list byte) : bool :=
+  match bs with
+  | b :: _ => ((48 <=? b)%N && (b <=? 57)%N || N.eqb b 43 || N.eqb b 45 || N.eqb b 46) && existsb (fun d => (48 <=? d)%N && (d <=? 57)%N) bs
+  | [] => false
+  end.
+(* the model's tree on the left, the observed object on the right *)
 Fixpoint ctree_eqb (a b : ctree) : bool :=
   let fix go (x y : list ctree) : bool :=
     match x, y with [], [] => true | p :: x', q :: y' => ctree_eqb p q && go x' y' | _, _ => false end in
@@ -12,6 +19,8 @@ Fixpoint ctree_eqb (a b : ctree) : bool :=
   | CNil, CNil | CTrue, CTrue => true
   | CSym x, CSym y | CStr x, CStr y | CBits x, CBits y => list_eqb N.eqb x y
   | CInt x, CInt y => Z.eqb x y
+  | CNum, CNum => true             (* two observations: their printed forms are compared in the harness *)
+  | CSym x, CNum => num_like x     (* token resolution is outside the model: the place holds a token that can be a number *)
   | CChr x, CChr y => N.eqb x y
   | CList x, CList y | CVec x, CVec y => go x y
   | CDot x t, CDot y u => go x y && ctree_eqb t u
